@@ -117,6 +117,13 @@ def run(e: Engine, rep: Report):
              'that already ends in a line break has an empty last line - '
              'terminating it only "when needed" drops that line)')
     w13(e, rep)
+    rep.rule('W14', 'which line of a reply is the last is a matter of '
+             'position: the reply writer / reader never compare line data '
+             'by identity (`is` between two values neither of which is a '
+             'singleton) - CPython shares the empty and all one-byte bytes '
+             'objects, so an inner line equal to the last one is written '
+             'with the last-line separator and ends the reply early')
+    w14(e, rep)
     rep.floor('W2', 4, 'framing agreement obligations')
 
 
@@ -1570,3 +1577,57 @@ def w11(e: Engine, rep: Report):
               'enhanced_status_code property) - `550 2.3.4 ...` goes on the '
               'wire', loc=getter.loc(direct[0]) if direct else getter.loc(),
               reason='no direct read of self._esc')
+
+
+def w14(e: Engine, rep: Report):
+    n = 0
+    for name in ('send_reply', 'recv_reply', 'send_command', 'recv_command'):
+        try:
+            ctx = e.method_ctx(IOC, name)
+        except Exception:
+            continue
+        g = e.build(ctx, raises=lambda b, n, r: set(),
+                    inline=e.inline_same_self(deny=['buffered_send',
+                                                    'buffered_recv']),
+                    max_depth=3)
+        fns = {ctx.func.qname: ctx.func}
+        for nd in g.nodes:
+            fns.setdefault(nd.frame.ctx.func.qname, nd.frame.ctx.func)
+        for q, f in sorted(fns.items()):
+            rep.functions.add(q)
+            mod = f.module
+            for c in ast.walk(f.node):
+                if not (isinstance(c, ast.Compare) and any(
+                        isinstance(o, (ast.Is, ast.IsNot)) for o in c.ops)):
+                    continue
+                sides = [c.left] + list(c.comparators)
+
+                def singleton(x):
+                    if isinstance(x, ast.Constant):
+                        return x.value is None or x.value is True or \
+                            x.value is False or x.value is Ellipsis
+                    if isinstance(x, ast.Name):
+                        v = getattr(mod, 'globals', {}).get(x.id)
+                        return isinstance(v, ast.Call) and \
+                            ast.unparse(v.func) == 'object'
+                    return False
+                n += 1
+                rep.evaluations += 1
+                rep.check(any(singleton(x) for x in sides), 'W14', q,
+                          '`%s` compares with a singleton'
+                          % ' '.join(ast.unparse(c).split())[:50],
+                          '`%s` tells two pieces of line data apart by '
+                          'object identity: equal short bytes objects are '
+                          'shared by the interpreter (b\'\' and every '
+                          'one-byte value), so a line that is not the last '
+                          'is taken for it - a multi-line reply whose inner '
+                          'line equals its last one is closed early and the '
+                          'peer reads the rest as further replies'
+                          % ' '.join(ast.unparse(c).split())[:50],
+                          loc=f.loc(c), reason='one side is None / True / '
+                          'False / a module-level object()')
+    rep.evaluations += 1
+    if n == 0:
+        rep.ok('W14', IOC, 'no identity comparison in the reply / command '
+               'writers and readers', reason='nothing compared with `is`',
+               nontrivial=False)
